@@ -7,7 +7,7 @@ From RU Require Import Base.Prelude Base.Utf8 Base.Utf8Facts Model.AsciiSet Gen.
   Model.HostT Model.UrlRecord Model.Parser Model.Setters Model.WF Model.KnownC01 Model.KnownC07 Spec.Whatwg
   Proofs.ListN Proofs.C03_WF Proofs.C06_List Proofs.C06_WFI Proofs.C06_Tail Proofs.C06_Suffix Proofs.C06_Front
   Proofs.C06_Steps Proofs.C06_FragQuery Proofs.C06_Port Proofs.C06_Main
-  Proofs.C01_Tables Proofs.C01_EqRun Proofs.C01_EqEnc Proofs.C01_EqApi
+  Proofs.C02_Enc Proofs.C01_Tables Proofs.C01_EqRun Proofs.C01_EqEnc Proofs.C01_EqApi
   Proofs.C07_Defs Proofs.C07_Setters Proofs.C07_GetSet Proofs.C07_Corr Proofs.C07_SpecRun.
 
 (* ---------- texts ---------- *)
@@ -75,7 +75,7 @@ Lemma corr_tail u su u' su' : corr u su ->
   starts_with [47] (serialize_path su') = starts_with [47] (serialize_path su) ->
   corr u' su'.
 Proof.
-  intros [W HT Es Eun Epw Eh Ehh Ea Eat Epo Ept Eq Ef Em Eo] W' (F1 & F2 & F3 & F4 & F5) SM
+  intros [W HT Es Eun Epw Eh Ehh Ea Eat Epo Ept Eq Ef Em Eo Ec] W' (F1 & F2 & F3 & F4 & F5) SM
     S1 S2 S3 S4 S5 P' Q' Fr' M' O' St'.
   pose proof (same_main_auth u u' W W' SM) as Ha'.
   destruct SM as (M1 & M2 & M3 & M4 & M5 & M6 & M7).
@@ -96,6 +96,7 @@ Proof.
   - rewrite Ha', M7, M1, M'. exact Em.
   - rewrite (is_opaque_by_path u' _ W' P'), Ha', M7, M1, St', O', <- Eo.
     symmetry. apply (is_opaque_by_path u _ W Ept).
+  - rewrite S2. exact Ec.
 Qed.
 
 (* the spaces at the end of an opaque path are stripped on both sides or on neither *)
